@@ -583,27 +583,55 @@ func hashStr(s string) uint64 {
 var c18IPs = []string{"127.0.0.1", "127.0.0.2", "127.0.0.3"}
 var c18Probe = [][4]byte{{127, 0, 0, 1}, {127, 0, 0, 2}, {127, 0, 0, 3}, {10, 1, 2, 3}, {127, 0, 0, 10}, {27, 0, 0, 1}} // the last two: a listed address is a proper prefix / suffix of theirs
 
-func c18File(state int) string {
+// c18Extra: further file contents (states 16..): duplicate lines, more lines than distinct addresses, the foreign and the
+// near-miss addresses listed, lines in another order; all with the whitelist enabled
+var c18Extra = [][]string{
+	{"127.0.0.1", "127.0.0.2", "127.0.0.2"},
+	{"127.0.0.1", "127.0.0.1", "127.0.0.1"},
+	{"127.0.0.2", "127.0.0.2", "127.0.0.3", "127.0.0.3"},
+	{"127.0.0.1", "127.0.0.2", "127.0.0.2", "10.1.2.3"},
+	{"127.0.0.10", "127.0.0.2"},
+	{"10.1.2.3"},
+	{"127.0.0.3", "127.0.0.2", "127.0.0.1"},
+}
+
+const c18NStates = 16 + 7
+
+func c18Lines(state int) (enable bool, lines []string) {
+	if state >= 16 {
+		return true, c18Extra[state-16]
+	}
 	// bit 3: enable; bits 0..2: addresses listed
+	for i, ip := range c18IPs {
+		if state&(1<<i) != 0 {
+			lines = append(lines, ip)
+		}
+	}
+	return state&8 != 0, lines
+}
+
+func c18Enabled(state int) bool { e, _ := c18Lines(state); return e }
+
+func c18File(state int) string {
+	en, lines := c18Lines(state)
 	t := "enable: false\n"
-	if state&8 != 0 {
+	if en {
 		t = "enable: true\n"
 	}
 	t += "ip_white_list:\n"
-	for i, ip := range c18IPs {
-		if state&(1<<i) != 0 {
-			t += "  - " + ip + "\n"
-		}
+	for _, ip := range lines {
+		t += "  - " + ip + "\n"
 	}
 	return t
 }
 
 func c18Admitted(state int, ip [4]byte) bool {
-	if state&8 == 0 {
+	en, lines := c18Lines(state)
+	if !en {
 		return true
 	}
-	for i := range c18IPs {
-		if state&(1<<i) != 0 && fmt.Sprintf("%d.%d.%d.%d", ip[0], ip[1], ip[2], ip[3]) == c18IPs[i] {
+	for _, l := range lines {
+		if fmt.Sprintf("%d.%d.%d.%d", ip[0], ip[1], ip[2], ip[3]) == l {
 			return true
 		}
 	}
@@ -664,11 +692,11 @@ func c18Run(dir string, hist []int) (sig, msg string) {
 		}
 		if !c.ProxyClosed || len(c.Received) > 0 {
 			s := "unlisted-address-admitted"
-			if prev >= 0 && c18Admitted(prev, ip) && prev&8 != 0 {
+			if prev >= 0 && c18Admitted(prev, ip) && c18Enabled(prev) {
 				s = "removed-address-still-admitted"
 			} else if len(hist) > 1 {
 				for _, st := range hist[:len(hist)-1] {
-					if st&8 != 0 && c18Admitted(st, ip) {
+					if c18Enabled(st) && c18Admitted(st, ip) {
 						s = "removed-address-still-admitted"
 					}
 				}
@@ -774,7 +802,7 @@ func c18Seq(tier string, shard, n int, deadline time.Time, res *Result) {
 		if len(cur) == depth {
 			return
 		}
-		for st := 0; st < 16; st++ {
+		for st := 0; st < c18NStates; st++ {
 			rec(append(cur, st))
 		}
 	}
